@@ -112,7 +112,8 @@ MCReward(g, c, Dom) ==
     LET T == Dom \ Sinks(g)
         r == [s \in States(g) |-> g.reward[s]]
         x == LinSolve(g, c, T, r, r, Zeros(g))
-    IN  TLCEval([s \in Dom |-> IF s \in T THEN x[s] ELSE RZero])
+        k == RScale(g)
+    IN  TLCEval([s \in Dom |-> IF s \in T THEN (IF k = 1 THEN x[s] ELSE Rat(x[s][1], x[s][2] * k)) ELSE RZero])
 
 -----------------------------------------------------------------------------
 (* Game values *)
